@@ -51,6 +51,7 @@ type icCall struct {
 	Got      int
 	Err      string
 	Visited  [][2]int
+	VisitAt  []int // logical time of each Range callback
 	N        int
 	Loaded   bool // the loader ran inside this call
 	Panicked bool
@@ -195,6 +196,7 @@ func (r *icRun) do(client int, op icOp, nextV *int) *icCall {
 	case "range":
 		s.Range(func(k, v int) bool {
 			c.Visited = append(c.Visited, [2]int{k, v})
+			c.VisitAt = append(c.VisitAt, r.tick())
 			return op.Arg == 0 || int64(len(c.Visited)) < op.Arg
 		})
 		c.OK = true
